@@ -34,7 +34,7 @@ Definition INV (s : st) := GG s /\ in_screen s.
 Ltac unf := unfold GG, INV, geom_ok, in_screen, grid_ok in *.
 Ltac setters := unfold unset_area in *; unfold set_row, set_col, set_rc, set_ovf, set_bra, set_area, set_wraps,
   set_buf, set_barvis, set_mode_fields in *.
-Ltac proj := cbn [row col ovf bra top bot act width height cells wraps barvis modenr csw hist] in *.
+Ltac proj := cbn [row col ovf bra top bot act width height cells wraps barvis modenr csw vga hist] in *.
 Ltac dif := match goal with |- context [if ?b then _ else _] => let E := fresh "E" in destruct b eqn:E end.
 
 (* ---- buffer primitives keep the grid *)
@@ -513,10 +513,17 @@ Proof.
   split; auto. destruct H as [_ Hs]. revert Hs I2 I3 I7 I8. unf. setters. proj. intros. congruence.
 Qed.
 
+Lemma gfx_width_cases v nr : gfx_width v nr = 0 \/ gfx_width v nr = 40 \/ gfx_width v nr = 80.
+Proof. unfold gfx_width. repeat dif; auto. Qed.
+
 Lemma screen_stmt_INV s nr : INV s -> INV (fst (screen_stmt s nr)).
 Proof.
-  intros H. unfold screen_stmt. repeat (dif; cbn [fst]; auto).
-  all: apply set_mode_INV; [apply H|]; destruct H as [[(?&?&?) _] _]; lia.
+  intros H. unfold screen_stmt.
+  destruct (negb (int16 nr)); [exact H|]. destruct (negb (rng 0 255 nr)); [exact H|].
+  destruct (negb (nr =? 0) && (gfx_width (vga s) nr =? 0)) eqn:E; [exact H|].
+  dif; cbn [fst]; [|exact H]. apply set_mode_INV; [apply H|].
+  destruct H as [[(?&?&?) _] _].
+  destruct (gfx_width_cases (vga s) nr) as [G|[G|G]]; rewrite G in *; repeat dif; lia.
 Qed.
 
 Lemma width_stmt_INV s w : INV s -> INV (fst (width_stmt s w)).
@@ -538,6 +545,14 @@ Proof.
   - apply clear_view_INV; auto.
 Qed.
 
+Lemma edit_key_INV s k : INV s -> INV (edit_key s k).
+Proof.
+  intros H. pose proof H as [[(G1&G2&G3) Hgr] [Hr Hc]]. unfold edit_key.
+  repeat dif; auto; try (apply set_pos_INV; [apply H | lia]).
+  - apply set_pos_INV; [apply H | setters; proj; lia].
+  - apply clear_view_INV; apply H.
+Qed.
+
 Lemma finish_INV sr : INV (fst sr) -> INV (fst (finish sr)).
 Proof.
   intros H. unfold finish. destruct (snd sr); cbn [fst]; auto. apply report_error_INV; auto.
@@ -555,6 +570,7 @@ Proof.
   - apply finish_INV. apply screen_stmt_INV; auto.
   - destruct (screen_fn s r c); cbn [fst]; auto. apply report_error_INV; auto.
   - apply write_chars_INV; auto.
+  - apply edit_key_INV; auto.
 Qed.
 
 Lemma run_INV l : forall s, INV s -> INV (run s l).
@@ -566,10 +582,22 @@ Qed.
 Lemma init_INV : INV init_st.
 Proof.
   split; [split|].
-  - unfold geom_ok, geom_okc, init_st. proj. repeat split; try lia; auto.
-  - unfold grid_ok, init_st. proj. apply (grid_new [] 25 80). lia.
-  - unfold in_screen, in_screenc, init_st. proj. lia.
+  - unfold geom_ok, geom_okc, init_st, init_with. proj. repeat split; try lia; auto.
+  - unfold grid_ok, init_st, init_with. proj. apply (grid_new [] 25 80). lia.
+  - unfold in_screen, in_screenc, init_st, init_with. proj. lia.
 Qed.
 
 Theorem reachable_INV l : INV (run init_st l).
 Proof. apply run_INV. apply init_INV. Qed.
+
+(* the same from any start width >= 2 and either adapter (text_width option, video=cga/vga) *)
+Lemma init_with_INV w v : 2 <= w -> INV (init_with w v).
+Proof.
+  intros Hw. split; [split|].
+  - unfold geom_ok, geom_okc, init_with. proj. repeat split; try lia; auto.
+  - unfold grid_ok, init_with. proj. apply (grid_new [] 25 w). lia.
+  - unfold in_screen, in_screenc, init_with. proj. lia.
+Qed.
+
+Theorem reachable_INV_with w v l : 2 <= w -> INV (run (init_with w v) l).
+Proof. intros Hw. apply run_INV. apply init_with_INV. exact Hw. Qed.
